@@ -219,9 +219,14 @@ example : validateAmbisonics 11 = some (10, 1) ∧ validateAmbisonics 227 = some
 /-- **Projection (family 3) layouts.**  For every channel count 1..255: when `ch = (n+1)² + 2j` with
     order `1 ≤ n ≤ 5`, `opus_projection_ambisonics_encoder_init/_create` succeed with
     `(ch+1)/2` streams, `ch/2` coupled and the identity mapping, the built-in matrices are large enough,
-    and the multistream decoder accepts the layout; every other count is refused. -/
-theorem projection_layout_valid : ∀ ch ∈ List.range 256, 1 ≤ ch → projectionCheck ch = true :=
-  projectionCheck_all
+    and the multistream decoder accepts the layout; every other count, every other family and every
+    channel count outside 1..255 is refused. -/
+theorem projection_layout_valid :
+    (∀ ch ∈ List.range 256, 1 ≤ ch → projectionCheck ch = true) ∧
+    (∀ (innerOk : Bool) (channels family : Int), family ≠ 3 ∨ channels < 1 ∨ channels > 227 →
+      projectionInit builtinDims innerOk channels family = .err .badArg ∧
+      projectionCreate builtinDims innerOk channels family = .err .allocFail) :=
+  ⟨projectionCheck_all, fun innerOk channels family h => projection_out_of_domain _ innerOk channels family h⟩
 
 example : family3 11 = some (6, 5, List.range 11) ∧ family3 3 = none ∧ family3 49 = none := by decide
 
